@@ -41,7 +41,7 @@ theorem dial_values_core (d : DCfg) (key : Bytes) :
 
 /-! ### the Upgrader's decision on the Dialer's request -/
 
-theorem commCheck_dial (u : UCfg) (d : DCfg) (key : Bytes) (hkey : validKey key = true) (ho : u.originOk = true)
+theorem commCheck_dial (u : UCfg) (d : DCfg) (key : Bytes) (hkey : key.isEmpty = false) (ho : u.originOk = true)
     (hx : values u.respHeader (s "Sec-Websocket-Extensions") = []) :
     commCheck u (dialRequest d key) =
       .ok { key, subprotocol := selectSubprotocol u (dialRequest d key), compress := u.enableCompression && d.enableCompression } := by
